@@ -697,6 +697,11 @@ func main() {
 		workerMain(cfg.Args[1:])
 		return
 	}
+	if mode == "rsworker" {
+		n, _ := strconv.Atoi(cfg.Args[2])
+		rsWorker(cfg.Args[1], n)
+		return
+	}
 	o := hlib.NewOut(cfg.Out)
 	defer o.Close()
 	if mode != "conc" {
@@ -714,6 +719,10 @@ func main() {
 		shard = int((cfg.Seed / 1000003) % uint64(shards))
 	}
 
+	if cfg.Replay != "" && mode == "rsrace" {
+		modeRsRace(cfg, o)
+		return
+	}
 	if cfg.Replay != "" {
 		for _, l := range hlib.ReplayLines(cfg.Replay) {
 			// a harness-decided verdict is replayed by its trailing `conc @… <scenario>` text
@@ -754,6 +763,8 @@ func main() {
 				interpReplay(o, ws[1:])
 			case "conc":
 				concReplay(cfg, o, ws[1:])
+			case "rs":
+				rsReplay(o, ws)
 			}
 		}
 		if mode == "copy" {
@@ -774,6 +785,10 @@ func main() {
 		modeConc(cfg, o)
 	case "copy":
 		modeCopy(cfg, o)
+	case "rs":
+		modeRs(cfg, o)
+	case "rsrace":
+		modeRsRace(cfg, o)
 	default:
 		fmt.Fprintln(os.Stderr, "unknown mode", mode)
 		os.Exit(2)
